@@ -1,9 +1,177 @@
-import Galaxy.Model.Plugin
+/-
+  C04 - a live pod's IP is never released, re-keyed or handed on.
+
+  Model: `Galaxy.Plugin` (M4-core, `Galaxy/Model/Plugin.lean`): the galaxy-ipam scheduler plugin at operation
+  granularity with adversary moves (pod re-creation with a fresh UID, delayed / lost events, stale listers, resync,
+  API release, pod-IP sync, reload, restart), explicit resolution of Go map nondeterminism (`Choice`, resync order)
+  and one failing apiserver / provider call per move.  `run facts (init c) ms` is the state after the history `ms`;
+  the driver `gxdrv_plugin` executes exactly these functions and the harness compares them with the real plugin.
+
+  FULL STATEMENT (property text):  for every history `ms` from `init c`, every pod `q` of API truth that was bound
+  by the plugin and has not finished owns every address of its binding annotation (memory and store: key = keyOf q,
+  uid = q.uid), and no move sends UnAssign for such an address.
+  What is proved is this statement under the side conditions `allAssumed` (decidable, see `Galaxy.Plugin.assumed`):
+    (a) names are non-empty;
+    (b) a reload keeps the addresses of live bound pods configured (the property says "reload that still contains
+        the IP") and its injected fault does not hit a store delete;
+    (c) at every `bind`: the pod lister shows the incarnation the API server has, and no record of another
+        incarnation is stored under the pod's key.
+  (c) is NOT guaranteed by the code: the two `_counter` theorems at the end show the full statement false on the
+  model without it, and the same histories break the real code (corpus/C04/stale-lister-bind.ops,
+  per-key-resync.ops; known findings bind-with-stale-lister-stores-old-uid and
+  stale-record-of-same-key-releases-live-pod-ip).  Hence the suffix `_partial`.
+-/
+import Galaxy.Lemmas.PluginMain
 
 namespace Galaxy.Props.C04
-open Galaxy.Plugin
+open Galaxy Galaxy.Plugin
 
-/-- the regenerated structural facts are the ones the proofs assume -/
+/-- The structural facts regenerated from /repo on this run are the shape the proofs are about: unbind ignores an
+    event whose pod UID differs from a stored non-empty UID before any mutation; allocateIP refuses another
+    incarnation's IP; Release and the resync closure re-read ByIP under lockPod and compare keys; podRunning asks
+    the lister and then the API server and compares UIDs.  (`facts` is what `gxdrv_plugin` runs with.) -/
 theorem fact_plugin_shape : Galaxy.Plugin.facts = Facts.good := by decide
+
+/-- Filter, Bind, unbind, Release, syncPodIP and the resync closure take `lockPod` before their first IPAM use -
+    the reason one pod name's operations are atomic moves of the model. -/
+theorem fact_entry_points_hold_pod_lock : Generated.Plugin.allUnderPodLock = true := by decide
+
+/-- Bind takes the pod object (and its UID) from the pod lister - the model's `bind` reads `vPods`. -/
+theorem fact_bind_reads_pod_from_lister : Generated.Plugin.bindReadsPodFromLister = true := by decide
+
+/-- The release-event loop drops an event after the 4th failed unbind (`retryTimes > 3`); the harness mirrors it. -/
+theorem fact_unbind_retry_limit : Generated.Plugin.unbindMaxRetries = 3 := by decide
+
+/-- "While a pod that was bound by galaxy-ipam still exists and has not finished, its IP stays assigned to it":
+    after EVERY finite history of moves (any admissible or inadmissible choices, any fault indices) whose side
+    conditions hold, every live bound pod owns each address of its binding annotation - in memory and in the store,
+    under its own key and its own UID.  Covers all 17 moves. -/
+theorem live_bound_pod_keeps_ip_partial (c : Conf) (ms : List Move) (hok : allAssumed facts (init c) ms = true) :
+    ∀ q, LiveBound (run facts (init c) ms).pods q → ∀ hd, hd ∈ q.handed → OwnedBy (run facts (init c) ms) q hd.ip := by
+  rw [fact_plugin_shape] at hok ⊢
+  intro q hq hd hm
+  exact inv_owned (inv_run ms _ (inv_init c) hok) q hq hd hm
+
+/-- "... nor ask the cloud provider to unassign it": in every reachable state, no move (whose side condition holds)
+    appends an UnAssign request for an address that is in the binding annotation of a live bound pod. -/
+theorem no_unassign_for_live_pod_partial (c : Conf) (ms : List Move) (hok : allAssumed facts (init c) ms = true)
+    (m : Move) (hm : assumed (run facts (init c) ms) m = true) (node : String) (ip : IP) (ok : Bool)
+    (hreq : PCall.unassign node ip ok ∈ newRequests (run facts (init c) ms) (next facts (run facts (init c) ms) m)) :
+    ¬ ∃ q, LiveBound (run facts (init c) ms).pods q ∧ ip ∈ q.ips := by
+  rw [fact_plugin_shape] at hok hreq hm ⊢
+  exact unassign_next _ m (inv_run ms _ (inv_init c) hok) hm node ip ok hreq
+
+/-- "no delete/finish event of an earlier same-named pod ... may free it": delivering ANY pending event in a reachable
+    state leaves every live bound pod's addresses owned (special case of the invariant, stated for the event move). -/
+theorem late_event_keeps_ip_partial (c : Conf) (ms : List Move) (hok : allAssumed facts (init c) ms = true)
+    (i fault pfault : Nat) :
+    ∀ q, LiveBound (next facts (run facts (init c) ms) (.deliver i fault pfault)).pods q → ∀ hd, hd ∈ q.handed →
+      OwnedBy (next facts (run facts (init c) ms) (.deliver i fault pfault)) q hd.ip := by
+  rw [fact_plugin_shape] at hok ⊢
+  intro q hq hd hm
+  exact inv_owned (inv_next _ _ (inv_run ms _ (inv_init c) hok) rfl) q hq hd hm
+
+/-! ### non-vacuity: a reachable state with a live bound pod, and a late event that is ignored -/
+
+def pool1 : Pool := { nodeSubnets := [⟨168362240, 24⟩], ranges := [(168427522, 168427522)], gateway := 168427521, bits := 24, vlan := 0 }
+def conf1 : Conf := { pools := [pool1], nodes := [("n1", 168362245)], provider := true }
+
+/-- bind(A); delete(A); create(A', same name, new UID); resync; filter(A'); bind(A'); deliver(delete A) - the history
+    of the fixed defect D2 (corpus/C04/d2.ops) -/
+def d2 : List Move := [
+  .scale .sts "ns1" "a" 2,
+  .createPod "ns1" "a-0" .sts "a" "" 0 [] true,
+  .listerSync true true,
+  .filter "ns1" "a-0" ["n1"] {} 0,
+  .bind "ns1" "a-0" 1 "n1" { pick := some 168427522 } 0 0,
+  .deletePod "ns1" "a-0",
+  .createPod "ns1" "a-0" .sts "a" "" 0 [] true,
+  .listerSync true true,
+  .resync [168427522] 0 0,
+  .filter "ns1" "a-0" ["n1"] {} 0,
+  .bind "ns1" "a-0" 2 "n1" { pick := some 168427522 } 0 0,
+  .deliver 0 0 0 ]
+
+/-- the second incarnation, bound -/
+def podA2 : Pod := { ns := "ns1", name := "a-0", uid := 2, kind := .sts, app := "a", pool := "", policy := 0, ranges := [], wants := true, phase := .pending, node := "n1", handed := [⟨168427522, 24, 168427521, 0⟩] }
+
+set_option maxRecDepth 100000 in
+/-- the hypotheses of the theorems are satisfiable by a non-trivial history -/
+example : allAssumed facts (init conf1) d2 = true := by decide
+
+set_option maxRecDepth 100000 in
+/-- ... at whose end a live bound pod exists and owns its address although the old incarnation's event was delivered -/
+example : LiveBound (run facts (init conf1) d2).pods podA2 ∧
+    (Tbl.get (run facts (init conf1) d2).alloc 168427522).map (fun r => (r.key, r.uid)) = some (keyOf podA2, 2) := by
+  refine ⟨⟨by decide, by decide, by decide⟩, by decide⟩
+
+/-! ### counter theorems -/
+
+/-- the plugin as it was before the fix of D2: unbind without the UID guard -/
+def factsNoGuard : Facts := { Facts.good with unbindChecksUID := false }
+
+set_option maxRecDepth 100000 in
+/-- WITHOUT the UID guard in unbind (`deliverNoGuard`) the statement fails on the 7-move history D2 (after the
+    workload / lister set-up): all side conditions hold, the second incarnation is live and bound, and the late
+    delete event of the first incarnation has freed its address.  (Fixed in /repo by
+    "fix: unbind released the ip of a live pod on a late event of an earlier same-named pod"; replay
+    corpus/C04/d2.ops; `fact_plugin_shape` breaks if the guard is removed again.) -/
+theorem live_bound_pod_keeps_ip_counter :
+    allAssumed factsNoGuard (init conf1) d2 = true ∧ LiveBound (run factsNoGuard (init conf1) d2).pods podA2 ∧
+      Tbl.get (run factsNoGuard (init conf1) d2).alloc 168427522 = none := by
+  refine ⟨by decide, ⟨by decide, by decide, by decide⟩, by decide⟩
+
+/-- bind while the lister still shows the previous incarnation; then the late delete event -/
+def staleBind : List Move := [
+  .scale .sts "ns1" "a" 2,
+  .createPod "ns1" "a-0" .sts "a" "" 0 [] true,
+  .listerSync true true,
+  .filter "ns1" "a-0" ["n1"] {} 0,
+  .bind "ns1" "a-0" 1 "n1" { pick := some 168427522 } 0 0,
+  .deletePod "ns1" "a-0",
+  .createPod "ns1" "a-0" .sts "a" "" 0 [] true,
+  .bind "ns1" "a-0" 2 "n1" {} 0 0,
+  .listerSync true true,
+  .deliver 0 0 0 ]
+
+set_option maxRecDepth 100000 in
+/-- Side condition (c), first half, is necessary AS THE CODE STANDS: with the real facts, a bind that reads the
+    previous incarnation from a stale lister stores the old UID; the late delete event then passes the UID guard and
+    frees the live pod's address.  Reproduced on the real code (corpus/C04/stale-lister-bind.ops), known finding
+    bind-with-stale-lister-stores-old-uid. -/
+theorem stale_lister_bind_counter :
+    allAssumed facts (init conf1) staleBind = false ∧ LiveBound (run facts (init conf1) staleBind).pods podA2 ∧
+      Tbl.get (run facts (init conf1) staleBind).alloc 168427522 = none := by
+  refine ⟨by decide, ⟨by decide, by decide, by decide⟩, by decide⟩
+
+def pool2 : Pool := { nodeSubnets := [⟨168362240, 24⟩], ranges := [(168427522, 168427523)], gateway := 168427521, bits := 24, vlan := 0 }
+def conf2 : Conf := { pools := [pool2], nodes := [("n1", 168362245)], provider := true }
+
+/-- lost delete event + the new incarnation requests another range + resync -/
+def staleRecord : List Move := [
+  .scale .sts "ns1" "a" 2,
+  .createPod "ns1" "a-0" .sts "a" "" 0 [[(168427522, 168427522)]] true,
+  .listerSync true true,
+  .filter "ns1" "a-0" ["n1"] {} 0,
+  .bind "ns1" "a-0" 1 "n1" {} 0 0,
+  .deletePod "ns1" "a-0",
+  .dropEvent 0,
+  .createPod "ns1" "a-0" .sts "a" "" 0 [[(168427523, 168427523)]] true,
+  .listerSync true true,
+  .filter "ns1" "a-0" ["n1"] {} 0,
+  .bind "ns1" "a-0" 2 "n1" {} 0 0,
+  .resync [168427522, 168427523] 0 0 ]
+
+def podA2' : Pod := { ns := "ns1", name := "a-0", uid := 2, kind := .sts, app := "a", pool := "", policy := 0, ranges := [[(168427523, 168427523)]], wants := true, phase := .pending, node := "n1", handed := [⟨168427523, 24, 168427521, 0⟩] }
+
+set_option maxRecDepth 100000 in
+/-- Side condition (c), second half, is necessary AS THE CODE STANDS: the resync closure decides per IP record but
+    releases per key, so a surviving record of an earlier incarnation under the same key takes the live pod's
+    address with it.  Reproduced on the real code (corpus/C04/per-key-resync.ops), known finding
+    stale-record-of-same-key-releases-live-pod-ip. -/
+theorem stale_record_counter :
+    allAssumed facts (init conf2) staleRecord = false ∧ LiveBound (run facts (init conf2) staleRecord).pods podA2' ∧
+      Tbl.get (run facts (init conf2) staleRecord).alloc 168427523 = none := by
+  refine ⟨by decide, ⟨by decide, by decide, by decide⟩, by decide⟩
 
 end Galaxy.Props.C04
